@@ -1,5 +1,6 @@
 import GopatchModel.MetaP
 import GopatchModel.FileM
+import GopatchModel.Spec.SplitSpec
 namespace Gopatch.C13
 open Gopatch.Sec
 
@@ -149,5 +150,29 @@ theorem connectDots_relabel (f : Nat → Nat) (hf : ∀ a b, a ≤ b ↔ f a ≤
   rw [← sortAsc_map f hf rhs]
   have := connectDotsGo_map f hf lhs (sortAsc rhs) []
   simpa using this
+
+/-! ### an unchanged line: once with a blank in front, or as a '-'/'+' pair -/
+
+/-- the bytes of the two versions of a body around a '-'/'+' pair of the same text `t` -/
+theorem pair_versions (a b : List Line) (o1 o2 : Nat) (t : Bytes) :
+    (splitPatch (a ++ ⟨o1, minusB :: t⟩ :: ⟨o2, plusB :: t⟩ :: b)).1.contents =
+      flat (a.filterMap (sideLine true)) ++ (t ++ [nl]) ++ flat (b.filterMap (sideLine true)) ∧
+    (splitPatch (a ++ ⟨o1, minusB :: t⟩ :: ⟨o2, plusB :: t⟩ :: b)).2.contents =
+      flat (a.filterMap (sideLine false)) ++ (t ++ [nl]) ++ flat (b.filterMap (sideLine false)) := by
+  have hne : (plusB == minusB) = false := by decide
+  constructor <;>
+    simp [splitPatch, build_eq, List.filterMap_append, List.filterMap_cons, sideLine, hne, flat_append, flat]
+
+/-- **Pair or context line.** Writing an unchanged line once with a blank in front instead of as an identical '-'/'+' pair
+changes each version of the change by exactly that one blank at the start of the line: the same Go tokens. -/
+theorem context_versions (a b : List Line) (o : Nat) (t : Bytes) :
+    (splitPatch (a ++ ⟨o, 32 :: t⟩ :: b)).1.contents =
+      flat (a.filterMap (sideLine true)) ++ (32 :: t ++ [nl]) ++ flat (b.filterMap (sideLine true)) ∧
+    (splitPatch (a ++ ⟨o, 32 :: t⟩ :: b)).2.contents =
+      flat (a.filterMap (sideLine false)) ++ (32 :: t ++ [nl]) ++ flat (b.filterMap (sideLine false)) := by
+  have h1 : ((32 : UInt8) == minusB) = false := by decide
+  have h2 : ((32 : UInt8) == plusB) = false := by decide
+  constructor <;>
+    simp [splitPatch, build_eq, List.filterMap_append, List.filterMap_cons, sideLine, h1, h2, flat_append, flat]
 
 end Gopatch.C13
